@@ -16,7 +16,7 @@ import (
 
 var (
 	vhClock    int  // logical clock: number of run-id loads so far
-	vhStopAt   int  // symbolic cancel instant (-1: never)
+	vhStopAt   = -1 // symbolic cancel instant (-1: never)
 	vhStopped  bool // stop() has happened
 	vhInterp   *Interpreter
 	vhSteps    int // exec steps taken (all activations)
@@ -46,6 +46,7 @@ func vhTick() {
 
 func vhNewInterp() *Interpreter {
 	i := &Interpreter{}
+	vhInterp = i
 	i.id = 1
 	i.done = make(chan struct{})
 	i.frame = newFrame(nil, 1, i.runid())
